@@ -1,20 +1,4 @@
 #!/bin/sh
-# usage: tools/run_seeds.sh <dir-with-seed-dirs> [property...]: for each seed, which checks fire?
-base=${1:-/verif/seeded}; shift
-props=${*:-C01 C02 C03 C04 C05 C06 C07 C08 C09 C10 C11 C12 C13 C14 C16 C18 C19 C20}
-for sd in $base/*/; do
-  [ -f $sd/patch.diff ] || continue
-  name=$(basename $sd)
-  d=$(mktemp -d /tmp/floxsa_try_XXXXXX)
-  cp -r /repo/flox $d/flox && rm -rf $d/flox/__pycache__
-  if ! (cd $d && patch -s -p1 < $sd/patch.diff >/dev/null 2>&1); then echo "$name: PATCH FAILED"; rm -rf $d; continue; fi
-  fired=""
-  for p in $props; do
-    out=$(FLOXSA_REPO=$d FLOXSA_NOWRITE=1 /venv/bin/python -B -m floxsa $p 2>&1)
-    rc=$?
-    if [ $rc -eq 1 ]; then rules=$(echo "$out" | grep REPORT | sed -E 's/.* (R-[A-Z]+) .*/\1/' | sort -u | tr '\n' ','); fired="$fired $p[$rules]"; fi
-    if [ $rc -eq 2 ]; then fired="$fired $p[ANALYSIS-ERROR]"; fi
-  done
-  echo "$name: ${fired:- (no check fires)}"
-  rm -rf $d
-done
+# usage: tools/run_seeds.sh [<dir-with-seed-dirs>] [jobs]: for each seeded change, which checks fire?  (parallel; output sorted by seed)
+base=${1:-/verif/seeded}; jobs=${2:-6}
+ls -d $base/*/ | xargs -P $jobs -n 1 /verif/tools/run_seed_one.sh | sort
